@@ -34,6 +34,8 @@ func readTree(root string, ents []dent) fstest.MapFS {
 	return m
 }
 
+var havePrlimit = func() bool { _, err := exec.LookPath("prlimit"); return err == nil }()
+
 func streamCli() {
 	n := 70
 	if thorough() {
@@ -295,6 +297,76 @@ func streamCli() {
 					ws[k] = fmt.Sprint(x)
 				}
 				ops = append(ops, fmt.Sprintf("C (mkFlags %s %s %s %s %s) %s", bs(fm), bs(fa), bs(fe), bs(fo), bs(fc), inCoq))
+				record(code, ws)
+				continue
+			case r < 59 && havePrlimit:
+				// a run (answer y) under an operating-system limit on file sizes: the first artifact the tool writes is cut after
+				// 512 octets and the write fails - a torn write on the real file system, inside the operating system's write call
+				fm, fc := true, true
+				fa := rng.Intn(3) == 0
+				args := []string{"--fsize=512", "--", bin, "sign"}
+				if fa {
+					args = append(args, "-a")
+				}
+				args = append(args, root)
+				tick()
+				before := map[string][]byte{}
+				filepath.Walk(root, func(p string, info os.FileInfo, err error) error {
+					if err == nil && !info.IsDir() {
+						b, _ := os.ReadFile(p)
+						before[p] = b
+					}
+					return nil
+				})
+				cmd := exec.Command("prlimit", args...)
+				cmd.Env = env
+				cmd.Stdin = strings.NewReader("y\n")
+				var so bytes.Buffer
+				cmd.Stdout, cmd.Stderr = &so, &so
+				cmd.Run()
+				text := so.String()
+				tick()
+				// which files changed, and which parts of the torn one survive (read off the bytes with encoding/pem)
+				var w []int
+				kh, kc, kk, kr := false, false, false, false
+				for j, e := range ents {
+					if !e.present {
+						continue
+					}
+					p := filepath.Join(root, e.pemPath(j))
+					b, err := os.ReadFile(p)
+					old, had := before[p]
+					if err != nil || (had && bytes.Equal(old, b)) {
+						continue
+					}
+					w = append(w, j)
+					if len(b) <= 512 && len(w) == 1 {
+						kh = bytes.HasPrefix(b, []byte("#HASH:")) && bytes.IndexByte(b, '\n') >= 0
+						bl := pemBlocks(b)
+						_, kc = bl["CERTIFICATE"]
+						_, kk = bl["PRIVATE KEY"]
+						_, kr = bl["CERTIFICATE REQUEST"]
+					}
+				}
+				code := 1
+				switch {
+				case strings.Contains(text, "nothing to do"):
+					code = 5
+				case strings.Contains(text, "can't open as filesystem database"):
+					code = 6
+				case strings.Contains(text, "can't determine necessary tasks"):
+					code = 7
+				case strings.Contains(text, "panic:"):
+					code = 3
+				case len(w) > 0:
+					code = 4 // the run ended at the failed write (reported as an error, or the process was ended by SIGXFSZ)
+				}
+				sort.Ints(w)
+				ws := make([]string, len(w))
+				for k, x := range w {
+					ws[k] = fmt.Sprint(x)
+				}
+				ops = append(ops, fmt.Sprintf("CF (mkFlags %s %s false false %s) (mkKeep %s %s %s %s)", bs(fm), bs(fa), bs(fc), bs(kh), bs(kc), bs(kk), bs(kr)))
 				record(code, ws)
 				continue
 			case r < 70:
